@@ -40,6 +40,13 @@ def main():
         i = argv.index("--name")
         name_override = argv[i + 1]
         del argv[i:i + 2]
+    base_patch = None
+    if "--base" in argv:
+        # the change was written on top of a behaviour-preserving refactoring: the demo must
+        # also pass on the refactored tree without the change
+        i = argv.index("--base")
+        base_patch = os.path.abspath(argv[i + 1])
+        del argv[i:i + 2]
     args = [a for a in argv if not a.startswith("--")]
     allprops = "--all-props" in argv
     prop = args[0]
@@ -72,6 +79,13 @@ def main():
             rc0, out0 = sh(demo_cmd, d, env)
             meta["demo_cmd"] = demo_cmd
             meta["demo_on_clean_tree"] = "pass" if rc0 == 0 else "FAIL"
+            if base_patch:
+                rcb, outb = sh("patch -p1 -s < %s" % base_patch, d, env)
+                rcb2, outb2 = sh(demo_cmd, d, env)
+                meta["base_refactoring"] = os.path.basename(os.path.dirname(base_patch))
+                meta["demo_on_refactored_tree"] = "pass" if rcb == 0 and rcb2 == 0 else "FAIL"
+                sh("patch -p1 -R -s < %s" % base_patch, d, env)
+                meta["source"] = "independent sub-agent, given the property text and a scratch worktree with the refactoring %s applied; patch.diff is relative to the unrefactored tree (refactoring + change)" % meta["base_refactoring"]
             rc, out = sh("git init -q . 2>/dev/null; git apply --whitespace=nowarn %s" % patch, d, env)
             if rc != 0:
                 rc, out = sh("patch -p1 -s < %s" % patch, d, env)
@@ -85,7 +99,7 @@ def main():
             rc1, out1 = sh(demo_cmd, d, env)
             meta["demo_with_change"] = "FAIL (as intended)" if rc1 != 0 else "pass (demo does not detect the change)"
             shutil.rmtree(os.path.join(d, "target"), ignore_errors=True)
-            confirmed = meta["demo_on_clean_tree"] == "pass" and meta["patch_applies"] and rcs == 0 and rc1 != 0 and rcd == 0
+            confirmed = meta["demo_on_clean_tree"] == "pass" and meta["patch_applies"] and rcs == 0 and rc1 != 0 and rcd == 0 and meta.get("demo_on_refactored_tree", "pass") == "pass"
             meta["confirmed"] = confirmed
             # static checks on the patched copy
             cenv = dict(os.environ, WOWSRP_REPO=d, WOWSRP_SLOT="s" + prop, WOWSRP_EVIDENCE_DIR=os.path.join(d, "_ev"), WOWSRP_REPLAY_DIR=os.path.join(d, "_rp"))
